@@ -343,6 +343,67 @@ static void cv_stop_two_waiters()
     pmc_outcome("first_kind=%d", first_kind);
 }
 
+// A waiter that leaves wait() through an exception (thread::interrupt while it is blocked) must not stay behind as
+// a waiter: the notify_one issued afterwards belongs to the remaining waiter.  order: which of the two queues first.
+template <typename CV>
+static void cv_interrupted_waiter()
+{
+    int order = pmc_choose(2, 0);    // 0: the waiter that will be interrupted queues first
+    static State s;
+    s = State{};
+    g_st = &s;
+    g_W = 1;
+    CV cv;
+    pika::mutex m;
+    pmc_watch(&cv, sizeof cv, "cv");
+    if constexpr (std::is_same_v<CV, pika::condition_variable_any>) pmc_watch(cv.data_.get(), sizeof(*cv.data_.get()), "cv_data");
+    static int waiting[2], flag, interrupted, victim_done;
+    waiting[0] = waiting[1] = flag = interrupted = victim_done = 0;
+    pmc_on_stuck([] { if (g_st->t_notified && g_st->returned < 1) pmc_fail("lost-notification", "notify_one was issued with the user lock taken after the remaining waiter had released it, but that waiter did not return (another waiter had left its wait through an interruption before)"); });
+    rt::start();
+    rt::spawn([&, order] {
+        rt::watch_self("controller");
+        pika::thread victim([&, order] {
+            rt::watch_self("victim");
+            auto ready = [&] { return order == 0 || waiting[1]; };
+            while (!ready()) pika::this_thread::suspend(pika::threads::detail::thread_schedule_state::pending, "C07 victim");
+            std::unique_lock<pika::mutex> l(m);
+            waiting[0] = 1;
+            try { while (!flag) cv.wait(l); }
+            catch (pika::thread_interrupted const&) { interrupted = 1; }
+            PMC_ASSERT(l.owns_lock(), "user-lock-not-held", "wait left through an interruption without the user lock");
+            victim_done = 1;
+        });
+        for (;;)
+        {
+            { std::unique_lock<pika::mutex> l(m); if (waiting[0] && waiting[1]) break; }
+            pika::this_thread::suspend(pika::threads::detail::thread_schedule_state::pending, "C07 controller");
+        }
+        victim.interrupt();
+        victim.join();
+        PMC_ASSERT(interrupted, "interrupt-delivery", "the blocked waiter was interrupted and joined but did not see thread_interrupted");
+        { std::unique_lock<pika::mutex> l(m); flag = 1; }
+        cv.notify_one();
+        s.t_notified = pmc_now();
+        pmc_progress();
+        ++s.finished;
+    });
+    rt::spawn([&, order] {
+        rt::watch_self("waiter");
+        while (order == 0 && !waiting[0]) pika::this_thread::suspend(pika::threads::detail::thread_schedule_state::pending, "C07 waiter");
+        std::unique_lock<pika::mutex> l(m);
+        waiting[1] = 1;
+        while (!flag) cv.wait(l);
+        ++s.returned;
+        pmc_progress();
+        l.unlock();
+        ++s.finished;
+    });
+    rt::stop();
+    PMC_ASSERT(s.finished == 2 && victim_done, "task-lost", "%d of 2 tasks finished (victim done %d)", s.finished, victim_done);
+    pmc_outcome("order=%d", order);
+}
+
 int main(int argc, char** argv)
 {
     static const char* focus = "F-addr: condition_variable handle + heap condition_variable_data (internal spinlock, queue, refcount) + user lock + each task's thread_data";
@@ -355,6 +416,8 @@ int main(int argc, char** argv)
         {"cv_timed_and_untimed", cv_timed_and_untimed<cv_t, pika::mutex>, 2, 3, 0.15, 0.1, 1, "one notify_one, an untimed and a timed (no predicate) waiter", nullptr, nullptr},
         {"cv_stop", cv_stop_token<0>, 1, 2, 0.1, 0.1, 1, "stop-token wait: cv, cv_data, user lock, stop_state", nullptr, nullptr},
         {"cv_stop_two_waiters", cv_stop_two_waiters, 1, 2, 0.1, 0.1, 1, "stop-token wait queued behind another waiter of the same condition variable", nullptr, nullptr},
+        {"cv_interrupted_waiter", cv_interrupted_waiter<cv_t>, 1, 2, 0.08, 0.08, 1, "a waiter interrupted while blocked, then notify_one for the remaining waiter", nullptr, nullptr},
+        {"cva_interrupted_waiter", cv_interrupted_waiter<cva_t>, 1, 2, 0.08, 0.08, 1, "the same with condition_variable_any", nullptr, nullptr},
         {"cv_stop_timed", cv_stop_token<1>, 1, 2, 0.1, 0.1, 1, "stop-token wait_for", nullptr, nullptr},
         {"cva_os_2w", cv_os<2>, 2, 3, 0.15, 0.15, 1, "condition_variable_any + std::mutex on plain OS threads; all pthread operations are points", nullptr, nullptr},
     };
